@@ -46,4 +46,22 @@ def decide (m : Inlined) (target : Nat) : Decision :=
 def convertNodes {ν : Type} (dom : ν → String) (conv : ν → List ν) (nodes : List ν) : List ν :=
   nodes.flatMap fun n => if isDefault (dom n) then conv n else [n]
 
+/-! ## what of `_adapt.py` this model covers (compared with `Generated/AdaptAttrInventory.lean`, tie G) -/
+
+/-- The exits of `adapt_inline` — (kind, returned expression, guarding tests) — one per branch of
+    `decide` (parameters and locals alpha-renamed `v0, v1, …` by the translator; `v1` = `protos`,
+    `v7` = `seen_domains`, `v6`/`v5` = source/target version, `v11` = `target_nodes`): no default-domain node → `keep`; versions differ → `convert`; fall through → `keep`.
+    A further exit (an early `return protos` under some new condition) is a code path `decide`
+    does not have. -/
+def coveredExits : List (String × String × List String) := [("return", "v1", ["not v7 & {'', 'ai.onnx'}"]), ("return", "v11", ["v6 != v5"]), ("return", "v1", [])]
+
+/-- Every function of `_adapt.py` with the (kind, guards) of each of its exits. `adapt_best_effort`
+    dispatches `_Inline` nodes to `adapt_inline` first and leaves nodes of other domains alone
+    (`proto.domain not in ('', 'ai.onnx')` → `None`, i.e. emitted verbatim: C18's custom nodes). -/
+def coveredFunctions : List (String × List (String × List String)) := [
+  ("adapt_node", [("return", ["v2 == v3"]), ("return", ["<except ValueError>"]), ("return", [])]),
+  ("adapt_inline", [("return", ["not v7 & {'', 'ai.onnx'}"]), ("return", ["v6 != v5"]), ("return", [])]),
+  ("adapt_best_effort", [("return", ["isinstance(v0, _Inline)"]), ("return", ["isinstance(v0, _InternalNode) or len(v1) != 1"]), ("return", ["any((isinstance(v14, AttrGraph) for v14 in v0.attrs.get_fields().values()))"]), ("return", ["not v10"]), ("return", ["v5.domain not in ('', 'ai.onnx')"]), ("return", [])])
+]
+
 end CustomInline
